@@ -3,7 +3,8 @@
   outputs), replays each through the `Float` reading of the model, and prints per line the
   correspondence verdict and the property predicates evaluated on the implementation's output.
 -/
-import OpwVerif.Drv.KinOps
+import OpwVerif.Drv.KinOps2
+import OpwVerif.Drv.MiscOps
 open Opw Opw.Proto Opw.Drv
 
 def dispatch (op : String) : Option (RM Res) :=
@@ -14,7 +15,18 @@ def dispatch (op : String) : Option (RM Res) :=
   | "invc" => some (opInverse .invc)
   | "inv5" => some (opInverse .inv5)
   | "invc5" => some (opInverse .invc5)
-  | "sing" => some opSing
+  | "sing" => some opSing2
+  | "invcs" => some opInvCS
+  | "cmp2" => some opCmp2
+  | "invcl" => some opInvCl
+  | "h_norm" => some opHNorm
+  | "h_close" => some opHClose
+  | "h_mpi" => some opHMpi
+  | "h_dist" => some opHDist
+  | "h_cmp" => some opHCmp
+  | "c07" => some opC07
+  | "lin" => some opLin
+  | "gantry" => some opGantry
   | "cons_of" => some opConsOf
   | "h_iki" => some (opHIki false)
   | "h_iki5" => some (opHIki true)
